@@ -309,3 +309,28 @@ func (p *Program) guardForms(b *ssa.BasicBlock) []string {
 	sort.Strings(out)
 	return out
 }
+
+// guardFormsLin: like guardForms, but returns the structured forms.
+func (p *Program) guardFormsLin(b *ssa.BasicBlock) []CmpForm {
+	var out []CmpForm
+	consider := func(d *ssa.BasicBlock) {
+		if len(d.Instrs) == 0 {
+			return
+		}
+		iff, ok := d.Instrs[len(d.Instrs)-1].(*ssa.If)
+		if !ok {
+			return
+		}
+		for si := 0; si < 2; si++ {
+			if d.Succs[si] == b && len(b.Preds) == 1 || edgeDominates(d, si, b) {
+				if f, ok := p.cmpForm(iff.Cond, si == 0); ok {
+					out = append(out, f)
+				}
+			}
+		}
+	}
+	for d := b.Idom(); d != nil; d = d.Idom() {
+		consider(d)
+	}
+	return out
+}
